@@ -15,6 +15,8 @@ mod gen_arith;
 mod gen_units;
 #[path = "../tables.rs"]
 mod tables;
+#[path = "../gen_session.rs"]
+mod gen_session;
 
 fn main() {
     let args: Vec<String> = std::env::args().collect();
@@ -35,6 +37,7 @@ fn main() {
         "gen-c03" => gen_units::run_c03(&opts),
         "gen-c09" => gen_units::run_c09(&opts),
         "gen-c10" => gen_units::run_c10(&opts),
+        "gen-c15" => gen_session::run(&opts),
         "encode" => {
             // encode plain-text query lines (stdin) as request lines
             use std::io::BufRead;
